@@ -19,6 +19,8 @@ pub enum ULoc {
     Adding(usize),
     Queue,
     Held(usize),
+    /// Object::take is in progress: the pool may or may not have let go of it yet.
+    Taking(usize),
     /// Handed back to a caller (remove, take, refused add).
     Back,
 }
@@ -33,6 +35,9 @@ pub struct URec {
 pub enum UKind {
     Get,
     Add,
+    /// An opaque call that takes an object out (try_remove): while it runs one
+    /// queued object may already have left.
+    Remove,
     Other,
 }
 
@@ -84,7 +89,7 @@ impl Drop for UObj {
             let r = &mut w.objs[id];
             r.alive = false;
             let loc = r.loc;
-            if !matches!(loc, ULoc::Back | ULoc::Fresh | ULoc::Adding(_)) && !w.close_begun && !w.pool_dropping {
+            if !matches!(loc, ULoc::Back | ULoc::Fresh | ULoc::Adding(_) | ULoc::Taking(_)) && !w.close_begun && !w.pool_dropping {
                 w.violate(&["C05"], "object-dropped-while-open", format!("object {} ({:?}) was destroyed while the pool is open", id, loc));
             }
         });
@@ -108,8 +113,9 @@ impl UWorld {
     pub fn in_pool(&self) -> usize {
         self.objs.iter().filter(|o| o.alive && matches!(o.loc, ULoc::Queue | ULoc::Held(_))).count()
     }
+    /// Objects whose membership is ambiguous right now (add or take in progress).
     pub fn adding(&self) -> usize {
-        self.objs.iter().filter(|o| o.alive && matches!(o.loc, ULoc::Adding(_))).count()
+        self.objs.iter().filter(|o| o.alive && matches!(o.loc, ULoc::Adding(_) | ULoc::Taking(_))).count()
     }
     pub fn queued(&self) -> usize {
         self.objs.iter().filter(|o| o.alive && o.loc == ULoc::Queue).count()
@@ -117,8 +123,9 @@ impl UWorld {
     fn touch(&mut self) {
         let n = self.in_pool();
         let a = self.adding();
+        let leaving = self.calls.values().filter(|c| c.kind == UKind::Remove).count();
         for c in self.calls.values_mut() {
-            c.min_in = c.min_in.min(n);
+            c.min_in = c.min_in.min(n.saturating_sub(leaving));
             c.max_in = c.max_in.max(n + a);
         }
         if n > self.ms {
@@ -129,7 +136,8 @@ impl UWorld {
     pub fn begin(&mut self, who: usize, kind: UKind, obj: Option<usize>) {
         let n = self.in_pool();
         let a = self.adding();
-        self.calls.insert(who, UCall { kind, min_in: n, max_in: n + a, after_close: self.close_returned, obj });
+        let leaving = self.calls.values().filter(|c| c.kind == UKind::Remove).count() + usize::from(kind == UKind::Remove);
+        self.calls.insert(who, UCall { kind, min_in: n.saturating_sub(leaving), max_in: n + a, after_close: self.close_returned, obj });
         if let Some(id) = obj {
             self.objs[id].loc = ULoc::Adding(who);
         }
@@ -229,9 +237,10 @@ fn finish_get(who: usize, r: Result<Object<UObj>, PoolError>, nonblocking: bool,
                 w.results.push((who, format!("obj{}", id)));
             });
             if take {
-                u(|w| w.objs[id].loc = ULoc::Back);
+                u(|w| w.objs[id].loc = ULoc::Taking(who));
                 let inner = Object::take(o);
                 u(|w| {
+                    w.objs[id].loc = ULoc::Back;
                     w.back.push(inner);
                     w.touch();
                     w.end(who);
@@ -398,7 +407,7 @@ fn exec(pool: &Pool<UObj>, op: &UOp, me: usize) {
             }
         }
         UOp::TryRemove => guarded(me, "try_remove", || {
-            u(|w| w.begin(me, UKind::Other, None));
+            u(|w| w.begin(me, UKind::Remove, None));
             // ids are only known after the call: wrap the result
             match pool.try_remove() {
                 Ok(o) => {
@@ -457,10 +466,11 @@ fn exec(pool: &Pool<UObj>, op: &UOp, me: usize) {
                 trace!("  caller {} takes object {}", me, id);
                 u(|w| {
                     w.begin(me, UKind::Other, None);
-                    w.objs[id].loc = ULoc::Back;
+                    w.objs[id].loc = ULoc::Taking(me);
                 });
                 let inner = Object::take(o);
                 u(|w| {
+                    w.objs[id].loc = ULoc::Back;
                     w.back.push(inner);
                     w.touch();
                     w.end(me);
